@@ -37,6 +37,20 @@ def _probe(src, info):
         # deleting / resetting an attribute that may currently hold nothing (fails when it does)
         a = src.pick(nodefault)
         return {"t": "del", "attr": a} if src.chance(1, 2) else {"t": "call", "m": f"reset_{a}", "a": [], "k": {"_inplace": True}}
+    keyed = [n for n, a in info.attrs().items() if a["type"][0] in ("keyedlist", "keyedset") or (a["type"][0] in ("list", "dict") and a["type"][-1] == ["spec", "N"])]
+    if keyed and src.chance(1, 10):
+        # an element that is ALREADY in the container (same key) goes to another position / key: a duplicate-key refusal
+        # after the addressed slot has been looked at - the classic place for half-done index bookkeeping
+        a = src.pick(keyed)
+        s = grammar.SINGULAR[a]
+        k = {"_inplace": src.chance(2, 3)}
+        if info.attrs()[a]["type"][0] == "dict":
+            return {"t": "call", "m": f"with_{s}", "a": [src.pick(grammar.KEYS), ["$item", a, src.choice(3)]], "k": k}
+        if src.chance(2, 3):
+            k["_index"] = src.pick([0, 1, -1, 2])
+            if src.chance(1, 3):
+                k["_insert"] = True
+        return {"t": "call", "m": f"with_{s}", "a": [["$item", a, src.choice(3)]], "k": k}
     return ops.gen_op(src, info, inplace=None, bad_rate=(45, 100), allow=("scalar", "element", "top", "nested"))
 
 
